@@ -57,58 +57,6 @@ def ErrClass.str : ErrClass → String
 
 def Err.str (e : Err) : String := e.ns.str ++ "::" ++ e.cls.str
 
-/-- Bound expressions occurring as predicate arguments in `validate()`: C++ arithmetic over literals and
-    `n_vectors`.  Typing follows C++: an operation on two `int` operands is an `int` operation (truncating
-    division), anything else is carried out in `double`, which the model takes to be exact (DESIGN §9). -/
-inductive BExpr where
-  | intLit (i : Int)
-  | realLit (q : Rat)
-  | nVectors
-  | add (a b : BExpr) | sub (a b : BExpr) | mul (a b : BExpr) | div (a b : BExpr)
-  | neg (a : BExpr)
-  deriving DecidableEq, Repr, Inhabited
-
-def BExpr.isInt : BExpr → Bool
-  | .intLit _ => true
-  | .realLit _ => false
-  | .nVectors => true
-  | .add a b | .sub a b | .mul a b | .div a b => a.isInt && b.isInt
-  | .neg a => a.isInt
-
-/-- value of a bound expression for `n_vectors = n` -/
-def BExpr.eval (n : Int) : BExpr → Rat
-  | .intLit i => (i : Rat)
-  | .realLit q => q
-  | .nVectors => (n : Rat)
-  | .add a b => a.eval n + b.eval n
-  | .sub a b => a.eval n - b.eval n
-  | .mul a b => a.eval n * b.eval n
-  | .div a b =>
-      if a.isInt && b.isInt then ((Int.tdiv (a.eval n).num (b.eval n).num : Int) : Rat)   -- int / int truncates
-      else a.eval n / b.eval n
-  | .neg a => - a.eval n
-
-/-- predicates of tapkee/predicates.hpp with their template argument -/
-inductive Pred where
-  | positivity (ty : Ty)
-  | nonNegativity (ty : Ty)
-  | inRange (ty : Ty) (lo hi : BExpr)         -- lo ≤ v < hi
-  | inClosedRange (ty : Ty) (lo hi : BExpr)   -- lo ≤ v ≤ hi
-  deriving DecidableEq, Repr, Inhabited
-
-def Pred.ty : Pred → Ty
-  | .positivity t | .nonNegativity t | .inRange t _ _ | .inClosedRange t _ _ => t
-
-/-- does the numeric value `v` satisfy the predicate when `n_vectors = n`? -/
-def Pred.holds (n : Int) (v : Rat) : Pred → Prop
-  | .positivity _ => 0 < v
-  | .nonNegativity _ => 0 ≤ v
-  | .inRange _ lo hi => lo.eval n ≤ v ∧ v < hi.eval n
-  | .inClosedRange _ lo hi => lo.eval n ≤ v ∧ v ≤ hi.eval n
-
-instance (n : Int) (v : Rat) (p : Pred) : Decidable (p.holds n v) := by
-  cases p <;> unfold Pred.holds <;> infer_instance
-
 /-- calls a `tapkee_method_handle(X)` block makes on the implementation object -/
 inductive DispatchStep where
   | validate | embed
